@@ -1,9 +1,9 @@
-\* generated by spec/getter/gen_cfgs.sh -- MC_cases_cascade
+\* generated by spec/getter/gen_cfgs.sh -- MC_casesq_cascade
 SPECIFICATION Spec
 CONSTANTS
   ReqTypes <- TypesAll
   NItems = 1
-  MaxAnswers = 2
+  MaxAnswers = 1
   Chains <- ChainsCascade
   NPeers = 3
   BlockStores <- StoresAll
